@@ -1880,9 +1880,12 @@ mzd_t *mzd_extract_l(mzd_t *L, mzd_t const *A) {
   L = mzd_submatrix(L, A, 0, 0, k, k);
   for (rci_t i = 0; i < L->nrows - 1; i++) {
     word *row = mzd_row(L, i);
+    /* bits beyond the last column belong to the parent of a window: keep them */
+    word const keep = row[L->width - 1] & ~L->high_bitmask;
     if (m4ri_radix - (i + 1) % m4ri_radix)
       mzd_clear_bits(L, i, i + 1, m4ri_radix - (i + 1) % m4ri_radix);
     for (wi_t j = (i / m4ri_radix + 1); j < L->width; j++) { row[j] = 0; }
+    row[L->width - 1] |= keep;
   }
   return L;
 }
